@@ -13,7 +13,7 @@ From Coq Require Import Ascii String List Bool Arith ZArith NArith.
 From PTBase Require Import Exn PyStr PyNum PyVal Fmt FixedFormat Wire.
 From PTModel Require Import Fortran.
 From Gen Require Import GenTables.
-From P Require Import Num Names InconIO Wf Fields Fits.
+From P Require Import Num Names InconIO Wf Fields Fits Stable.
 Import ListNotations.
 Open Scope string_scope.
 Open Scope char_scope.
@@ -141,6 +141,7 @@ Definition run_case (line : str) : str :=
                 s2l "wff=" ++ show_bool (wfb_fits L (dec_nv nv) (is1 ck) (is1 r) i) ++
                 s2l " wf=" ++ show_bool (wfb L (dec_nv nv) (is1 ck) (is1 r) i) ++
                 s2l " rw=" ++ show_bool (res_incon_eqb (bind w (read (dec_nv nv) (is1 ck))) c) ++
+                s2l " st=" ++ show_bool (stableb L (is1 r) i) ++
                 s2l " idh=" ++ show_bool (idemb L (is1 r) i) ++
                 s2l " idem=" ++ show_bool (res_lines_eqb (write (is1 r) c) w)
             | Raise e => s2l "NOLAYOUT" end
